@@ -416,7 +416,12 @@ def run_shard(shard):
                         s = "P" + ("T" if part is time_part else "") + "".join(f"{v}{LETTER[k_]}" for k_, v in comps)
                         acc.c["states"] += 1
                         check_reject(acc, mods, s, "out-of-order")
-        for s in ("P1.5Y", "P0.5M", "P1,5Y", "P1.5Y1D", "P1Y2.5M", "P1.5YT1H", "P2.5M3D"):
+        fy = ["P1.5Y", "P0.5M", "P1,5Y", "P1.5Y1D", "P1Y2.5M", "P1.5YT1H", "P2.5M3D"]
+        # every fraction of 1..3 digits (zero fractions included: a fraction written as .0 is still a fraction) on Y and on M
+        for frac in [f"{i:0{w}d}" for w in (1, 2, 3) for i in range(10 ** w)]:
+            for sep in ".,":
+                fy += [f"P1{sep}{frac}Y", f"P1{sep}{frac}M", f"P1Y2{sep}{frac}M", f"P3{sep}{frac}YT1H"]
+        for s in fy:
             acc.c["states"] += 1
             check_reject(acc, mods, s, "fractional-year-month")
         acc.c["nontrivial"] += acc.c["states"]
